@@ -10,6 +10,8 @@ POS = {
     "member_ren":   ("#[map(D)] #[into_existing(D)] struct S {{ a: V, #[map(rx, {{ {E} }})] s1: V }}", ("from", "into", "ie"), True),
     "member":       ("#[map(D)] #[into_existing(D)] struct S {{ a: V, #[map({{ {E} }})] s1: V }}", ("from", "into", "ie"), True),
     "member_child": ("#[map(D)] #[into_existing(D)] #[child_parents(p: P, p.q: Q)] struct S {{ a: V, #[child(p.q)] #[map(rx, {{ {E} }})] s1: V }}", ("from", "into", "ie"), True),
+    "member_hint_t": ("#[map(D as ())] struct S {{ a: V, #[map({{ {E} }})] s1: V }}", ("from", "into"), True),
+    "member_tuple": ("#[map(D)] struct S ( V, #[map({{ {E} }})] V );", ("from", "into"), True),
     "ghost":        ("#[from(D)] struct S {{ a: V, #[ghost({{ {E} }})] s1: V }}", ("from",), False),
     "ghosts":       ("#[into(D)] #[into_existing(D)] #[ghosts(g: {{ {E} }})] struct S {{ a: V }}", ("into", "ie"), False),
     "vars":         ("#[map(D | vars(v: {{ {E} }}))] #[into_existing(D | vars(v: {{ {E} }}))] struct S {{ a: V }}", ("from", "into", "ie"), False),
